@@ -613,6 +613,13 @@ def operand_name(body, du, o, depth=10):
             break
     base = body.locals[p['l']].get('name') or '_%d' % p['l']
     fields = [e['f'] for e in (p.get('p') or []) if isinstance(e, dict) and 'f' in e]
+    # a captured variable of a closure / coroutine body: `_1.<n>` carries the captured variable's name
+    if p['l'] == 1 and fields and not body.locals[1].get('name'):
+        for uv in body.d.get('upvars') or []:
+            up = uv.get('place') or {}
+            ufields = [e['f'] for e in (up.get('p') or []) if isinstance(e, dict) and 'f' in e]
+            if up.get('l') == 1 and ufields and ufields[0] == fields[0]:
+                return '.'.join([uv['name']] + fields[1:])
     return '.'.join([base] + fields)
 
 
